@@ -497,3 +497,5 @@ class Boss:
     S4_closed.upon(got_code, enter=S4_closed, outputs=[])
     S4_closed.upon(got_key, enter=S4_closed, outputs=[])
     S4_closed.upon(error, enter=S4_closed, outputs=[])
+    # the Terminator can finish an orderly shutdown after error() already closed us
+    S4_closed.upon(closed, enter=S4_closed, outputs=[])
